@@ -71,3 +71,36 @@ class Stateful(Stateless):
         if not state:
             return
         self._model = json.loads(state.decode())
+
+
+class Source(Stateless):
+    """Head of a table: ignores whatever the runner feeds it (pyfunc passes the request entry, dask nothing)."""
+
+    def apply(self, *xs):
+        return super().apply()
+
+
+class Recorder(Stateless):
+    """Sink: computes its application term like any stateless actor and appends it to the file `path` (one JSON
+    line per execution, O_APPEND so that it works from any thread or process)."""
+
+    def __init__(self, label, szout=1, path=None, **params):
+        super().__init__(label, szout, **params)
+        self._path = path
+
+    def apply(self, *xs):
+        import os
+        res = super().apply(*xs)
+        fd = os.open(self._path, os.O_WRONLY | os.O_APPEND | os.O_CREAT, 0o644)
+        try:
+            os.write(fd, (json.dumps(res, sort_keys=True) + '\n').encode())
+        finally:
+            os.close(fd)
+        return res
+
+    def get_params(self):
+        return {**super().get_params(), 'path': self._path}
+
+    def set_params(self, **params):
+        self._path = params.pop('path', self._path)
+        super().set_params(**params)
